@@ -232,6 +232,12 @@ def enabled_ops(d, cls, rich=True):
 STOP_OPS = {"normalize_step", "foliate_step"}
 
 
+def fingerprint(d):
+    """Cheap identity of what a diagram holds (which box objects, at which offsets, between which
+    types): an operation must leave the diagram it is applied to as it was."""
+    return (tuple(map(id, d.boxes)), tuple(d.offsets), ref.ty_key(d.dom), ref.ty_key(d.cod))
+
+
 def state_key(v):
     return (type(v).__module__ + "." + type(v).__name__, ref.diagram_key(v))
 
@@ -244,7 +250,7 @@ def check_value(v):
     return []
 
 
-def run_chain(params):
+def run_chain(params):  # noqa: C901
     """Replay: rebuild the seed, apply the op chain, scan the final value and everything the
     library constructed internally during the last op."""
     recipe = _norm(params["recipe"])
@@ -255,12 +261,16 @@ def run_chain(params):
     for op in ops[:-1]:
         d = apply_op(d, op, cls)
     out = []
+    before = fingerprint(d)
     OBS.start()
     try:
         v, exc = apply_op(d, ops[-1], cls), None
     except Exception as e:  # noqa
         v, exc = None, e
     internal = OBS.stop()
+    if fingerprint(d) != before:
+        out.append((_sig("operand-mutated", [params["recipe"], params["ops"]]),
+                    "%s changed the diagram it was applied to (%s after %s)" % (ops[-1], build.build(recipe), ops[:-1])))
     if exc is None:
         errs = check_value(v)
         if errs:
@@ -453,6 +463,7 @@ def _explore(shard):
                     if (op[0], op[1] if len(op) > 2 else None) in stopped:
                         continue
                     params = dict(recipe=recipe, ops=[list(o) for o in chain + (op,)])
+                    before = fingerprint(d)
                     OBS.start()
                     try:
                         v, exc = apply_op(d, op, cls), None
@@ -460,6 +471,10 @@ def _explore(shard):
                         v, exc = None, e
                     internal = OBS.stop()
                     part.count("transitions")
+                    if fingerprint(d) != before:
+                        part.violation(_sig("operand-mutated", [recipe, params["ops"]]),
+                                       "%s changed the diagram it was applied to (%s reached by %s from %s)"
+                                       % (op, d, list(chain), d0), "chain", params)
                     part.count("internal_diagrams_scanned", OBS.count)
                     OBS.count = 0
                     for e in internal[:1]:
